@@ -64,9 +64,9 @@ def explore():
     if race:
         args += ["-racebin", race]
     if ck.thorough():
-        args += ["-same", "40", "-partial", "12", "-race", "4", "-par", "4", "-racerepo", "./lintcmd/runner,./internal/sync,./analysis/lint,./unused"]
+        args += ["-same", "40", "-partial", "12", "-race", "4", "-par", "4", "-go117", "12", "-racerepo", "./lintcmd/runner,./internal/sync,./analysis/lint,./unused"]
     else:
-        args += ["-same", "5", "-partial", "2", "-race", "1", "-par", "4", "-traced", "0", "-text=false"]
+        args += ["-same", "5", "-partial", "2", "-race", "1", "-par", "4", "-traced", "0", "-text=false", "-go117", "2"]
     env = dict(GOENV); env["VERIF_REPO"] = REPO
     rc, out = sh(args, timeout=6 * 3600, env=env)
     if rc != 0 or not os.path.exists(res):
@@ -145,7 +145,7 @@ for sh_i, items in shards.items():
     tabs = {}
     for i, r, k, tr in items:
         txt += T.coq_run("t%d" % i, tr, tabs)
-        txt += ("Definition V%d := Eval vm_compute in match t%d_tr with Some tr => valid_trace_nfast t%d_top t%d_tabs t%d_assign t%d_cap tr | None => false end.\nPrint V%d.\n"
+        txt += ("Definition V%d := Eval vm_compute in match t%d_atr with Some tr => valid_trace_nskips t%d_top t%d_tabs t%d_assign t%d_cap tr | None => false end.\nPrint V%d.\n"
                 % (i, i, i, i, i, i, i))
     files["traces%d" % sh_i] = txt
 results = ck.coq_cases_parallel(files, timeout=3000, jobs=nshard) if files else {}
@@ -169,20 +169,36 @@ for sh_i, items in shards.items():
 files = {}
 for i, r, k, tr in failing[:16]:
     files["reject%d" % i] = (T.HEADER + T.coq_run("t%d" % i, tr, {}) +
-        "Definition F%d := Eval vm_compute in match t%d_tr with Some tr => first_reject unit unit false t%d_gg t%d_cap (ginit t%d_gg t%d_cap) tr 0 | None => Some 0%%nat end.\nPrint F%d.\n"
+        "Definition F%d := Eval vm_compute in match t%d_atr with Some tr => reject_point t%d_top t%d_tabs t%d_assign t%d_cap tr | None => Some (0%%nat, false) end.\nPrint F%d.\n"
         % (i, i, i, i, i, i, i))
 results = ck.coq_cases_parallel(files, timeout=3000, jobs=nshard) if files else {}
 for i, r, k, tr in failing[:16]:
     rc, out = results["reject%d" % i]
     val = ck.printed_value(out, "F%d" % i) or ""
-    m = re.match(r"Some (\d+)", val)
+    m = re.match(r"Some \((\d+), (true|false)\)", val)
     idx = int(m.group(1)) if m else None
+    skipdiff = bool(m and m.group(2) == "true")
     crashed = r.get("TimedOut") or r.get("Exit") not in (0, 1)
     if idx is None and crashed:
         continue        # a prefix of a run that crashed or hung (reported by the harness), every recorded step is legal
+    if skipdiff:
+        f = tr.raw[idx].split(" ")
+        lvl, a = int(f[1]), int(f[3])
+        rows = tr.top if lvl < 0 else tr.inner.get(lvl, [])
+        name = rows[a][4] if a < len(rows) else "?"
+        depn = [rows[d][4] for d in rows[a][0]] if a < len(rows) else []
+        ck.violation("skip-decision:" + ("package" if lvl < 0 else "analyzer"),
+                     "run %s (GOMAXPROCS=%d, VERIF_YIELD=%d, %s): action %s %s although the failed flags of the action and its dependencies %s at that point say the opposite: the failure of a dependency is not ordered before the dependent's start"
+                     % (r["ID"], r["GMP"], r["Yield"], " ".join((r.get("Args") or []) + r["Patterns"])[:80], name,
+                        "was skipped" if f[5] == "1" else "ran exec", depn),
+                     {"run": {x: r.get(x) for x in ("ID", "GMP", "Yield", "Patterns", "Args", "Format", "Tests")}, "event_index": idx, "event": tr.raw[idx],
+                      "events_before": tr.raw[max(0, idx - 25):idx + 1], "action": name, "dependencies": depn,
+                      "replay": "GOMAXPROCS=%d VERIF_YIELD=%d VERIF_TRACE=/tmp/t staticcheck(-tags verif) %s in the generated module (seed %d)" % (r["GMP"], r["Yield"], " ".join((r.get("Args") or []) + r["Patterns"]), ck.seed),
+                      "module_files": data["Files"]})
+        continue
     ctx = tr.raw[max(0, idx - 12):idx + 3] if idx is not None else tr.raw[-15:]
     what = ("the scheduler of run %s (GOMAXPROCS=%d, VERIF_YIELD=%d, %s) performed a step the model's transition relation does not allow"
-            % (r["ID"], r["GMP"], r["Yield"], " ".join(r["Patterns"])[:80]))
+            % (r["ID"], r["GMP"], r["Yield"], " ".join((r.get("Args") or []) + r["Patterns"])[:80]))
     if idx is not None:
         what += ": event %d `%s`" % (idx, tr.raw[idx] if idx < len(tr.raw) else "?")
     elif not tr.complete:
@@ -239,12 +255,12 @@ ck.assume += [
     "the trace hook logs a linearisation of the real execution (decrement+log in one critical section; sends logged before, receives after; see lintcmd/runner/verif_trace.go)",
 ]
 ck.trusted.append("harness hc06 (module generator, run matrix, output comparison) and checks/c06_trace.py (trace -> Gallina)")
-same = [r for r in runs if r["Kind"] in ("same", "warm", "ref")]
+same = [r for r in runs if r["Kind"] in ("same", "warm", "ref", "same117", "ref117")]
 ck.finish({
     "explanation": "Theorems (Props/C06.v) hold for all executions of the scheduler model; the real scheduler is tied to the model by validating every recorded trace with the model's transition relation in coqc, and explored across GOMAXPROCS / yield seeds / pattern lists / -race. Race freedom of the Go code itself is explored, not proved (partial).",
     "evaluations": len(runs),
     "distinct_nontrivial": len(shapes),
-    "rule": "one evaluation = one run of the real staticcheck binary on the generated 12-package module (diamond deps, facts across packages, test variants, a package that does not compile); distinct_nontrivial = number of distinct recorded schedules (sha1 of the full event sequence incl. graphs) among the traced runs, each with >= 2 package actions running analyzers",
+    "rule": "one evaluation = one run of the real staticcheck binary on the generated 18-package module (diamond deps, facts across packages, test variants, a package that does not compile, a package that fails while the runner executes under -go 1.17 with dependents that have slower siblings, two packages with an identically placed unexported object used in one only); distinct_nontrivial = number of distinct recorded schedules (sha1 of the full event sequence incl. graphs) among the traced runs, each with >= 2 package actions running analyzers",
     "samples": [{"run": {x: sample_run[0][x] for x in ("ID", "GMP", "Yield", "Patterns")}, "capacity": sample_run[2].cap,
                  "first_events": sample_run[2].raw[:25], "events": len(sample_run[2].raw)}] if sample_run else ["no trace"],
     "traces_validated_against_impl": nvalid,
